@@ -1,14 +1,11 @@
 #![allow(dead_code, unused_imports, unused_variables)]
+pub use vcommon::{num, refm, report, state};
 mod chain;
 mod ix;
 mod kinds;
 mod mon;
 mod mon_risk;
-mod num;
-mod refm;
-mod report;
 mod scen;
-mod state;
 mod storm;
 mod tap;
 mod world;
@@ -116,6 +113,10 @@ async fn run_scen(a: &Args, m: &mut mon::Mon) {
             };
             match a.prop.as_str() {
                 "C05" => scen::liquidation(&mut w, m, &mut r, &lev, lq).await,
+                "C09" => {
+                    // hostile oracle conditions around valuation-consuming instructions
+                    scen::oracle_faults(&mut w, m, &mut r, &lev, lq, g).await
+                }
                 "C07" => scen::bankruptcy(&mut w, m, &mut r, &lev, g).await,
                 "C10" => {
                     let ru = w.accts[lq].user;
@@ -155,7 +156,7 @@ async fn main() {
     // program panics are caught by the runtime wrapper; keep them quiet, but show harness panics
     std::panic::set_hook(Box::new(|i| {
         let loc = i.location().map(|l| l.file().to_string()).unwrap_or_default();
-        if loc.contains("/verif/") {
+        if loc.contains("/verif/") || loc.starts_with("rig") || loc.starts_with("vcommon") {
             eprintln!("HARNESS PANIC: {}", i);
         }
     }));
@@ -173,6 +174,7 @@ async fn main() {
         "C05" => vec!["C05"],
         "C07" => vec!["C07"],
         "C10" => vec!["C10"],
+        "C09" => vec!["C09", "C04", "C05", "C07", "C10"],
         "C11" => vec!["C11"],
         "ALL" => vec!["C01", "C02", "C03", "C06", "C16", "C17", "C04", "C05", "C07", "C10", "C11"],
         _ => vec![],
@@ -180,7 +182,7 @@ async fn main() {
     let mut m = mon::Mon::new(&a.prop, &on);
     match a.prop.as_str() {
         "C01" | "C02" | "C03" | "C06" | "C16" | "C17" | "ALL" | "C11" => run_storm(&a, &mut m).await,
-        "C04" | "C05" | "C07" | "C10" => run_scen(&a, &mut m).await,
+        "C04" | "C05" | "C07" | "C10" | "C09" => run_scen(&a, &mut m).await,
         p => {
             eprintln!("unknown property {}", p);
             std::process::exit(3);
